@@ -102,7 +102,7 @@ func init() {
 			if a.SetSize("kinds") < 18 || a.Counters["parsed_equal"] < 1000 {
 				return fmt.Errorf("coverage too small: kinds=%d equal=%d", a.SetSize("kinds"), a.Counters["parsed_equal"])
 			}
-			return nil
+			return needKinds(a, "kinds", "switch")
 		},
 		Assumptions: []string{
 			"the reference encoder is the trusted description of what a conforming switch sends (SPEC_NOTES.md sections A-E)",
